@@ -30,6 +30,8 @@ func GenLeaderPlan(seed uint64) *Plan {
 	p.Leader = pick(g, "carousel", "carousel", "reputation")
 	p.Ruleset = pick(g, "chainedhotstuff", "fasthotstuff")
 	p.Knobs = map[string]int{"blocks": g.rng(3, 40), "gapPct": pick(g, 0, 20, 50), "queries": g.rng(1, 4), "missPct": pick(g, 0, 0, 10), "extraSigners": g.intn(3)}
+	// a replica that catches up commits several blocks at once: the head moves over them with no query in between
+	p.Knobs["skipPct"] = pick(g, 0, 30, 60)
 	if g.p(0.3) {
 		// the stateless schemes, "for every view number and cluster size": any n, windows of consecutive views
 		// around seeded bases that include the corners of the 64-bit view space
@@ -257,6 +259,10 @@ func runLeaderWorld(t *testing.T, p *Plan, want []string, logw io.Writer) *Resul
 		head := chain[i]
 		va.UpdateCommittedBlock(head.b)
 		vb.UpdateCommittedBlock(head.b)
+		if sp := k("skipPct"); sp > 0 && i+1 < len(chain) && g.intn(100) < sp {
+			st.Faults["commit-head-moved-without-query"]++
+			continue
+		}
 		for qn := 0; qn < k("queries") && res.Violation == nil; qn++ {
 			st.Steps++
 			// mostly the view at which the carousel is active for this head, sometimes around it
